@@ -477,6 +477,10 @@ SEGMENT_REDUCERS = {
     "lcm.discrete_problem._segment_logsumexp": None,
     "lcm.argmax.segment_argmax": None,
 }
+# factories whose returned closure reduces over segments: factory -> parameter of the closure that holds the segments
+SEGMENT_REDUCER_FACTORIES = {
+    "lcm.simulate.get_discrete_policy_calculator": "choice_segments",
+}
 
 
 @rule("R14.SEGPATH")
@@ -522,18 +526,32 @@ def segment_paths(ctx: Ctx):
                 return True  # the segment operation as a function value (bound with functools.partial, then called)
         return False
 
-    for q, pname in SEGMENT_REDUCERS.items():
+    from lcmsa.match import product_closures
+
+    targets = [(q, pname, None) for q, pname in SEGMENT_REDUCERS.items()] + [(q, pname, "closure") for q, pname in SEGMENT_REDUCER_FACTORIES.items()]
+    for q, pname, kind in targets:
         key = f"SEGPATH:{q.removeprefix('lcm.')}"
         if q not in prog.funcs:
             ctx.undecided(key, f"{q} not found (anchor vanished)")
             continue
         fr = prog.frame(q)
         where = prog.node_where(fr.module, prog.funcs[q].node)
+        if kind == "closure":
+            cids = product_closures(prog, fr)
+            if len(cids) != 1:
+                ctx.undecided(key, f"{q}: expected one returned closure, found {len(cids)}", where)
+                continue
+            fr = prog.closure_frame(cids[0])
+            q = fr.qualname
         if fr.ret is None or fr.unsupported:
             ctx.undecided(key, "return value not analysable", where)
             continue
+        # a tuple result is judged component by component; a component that never depends on the segments is skipped
+        comps = [fr.ret]
+        if is_term(fr.ret) and fr.ret[0] == "tuple":
+            comps = [c for c in fr.ret[1] if any(reduces_by_segment(t_) for _p, t_ in arms(c, ()))]
         bad, n_arms = None, 0
-        for path, t in arms(fr.ret, ()):
+        for path, t in (a for c in comps for a in arms(c, ())):
             absent = False
             for c, val in path:
                 if pname is None:
@@ -556,3 +574,7 @@ def segment_paths(ctx: Ctx):
             ctx.ob(key, True if n_arms else None, where,
                    f"all {n_arms} result path(s) with segments go through a segment operation" if n_arms else "no result path found")
     ctx.floor("segment_reducers", 4)
+
+
+def _noop():
+    return None
